@@ -1,4 +1,4 @@
-import BiotiteModel.Model.C05
+import BiotiteModel.Model.C05Ext
 /-! Line-protocol driver for C05: one output line per input line. -/
 namespace BiotiteModel.Driver.C05
 open BiotiteModel BiotiteModel.C05 BiotiteModel.Proto
@@ -10,6 +10,40 @@ def showE (r : Except Err (List Int)) : String :=
 
 def optNat (s : String) : Option (Option Nat) :=
   if s == "-" then some none else s.toNat?.map some
+
+def parseRat (s : String) : Option Rat :=
+  match s.splitOn "/" with
+  | [a] => a.toInt?.map fun n => (n : Rat)
+  | [a, b] => match a.toInt?, b.toNat? with
+    | some n, some d => if d = 0 then none else some ((n : Rat) / (d : Rat))
+    | _, _ => none
+  | _ => none
+
+def parseRats (s : String) : Option (List Rat) :=
+  if s == "_" then some [] else (s.splitOn ",").mapM parseRat
+
+def showRat (q : Rat) : String := if q.den = 1 then toString q.num else s!"{q.num}/{q.den}"
+
+/-- strings are sent hex-encoded per UTF-8 byte-free scheme: code points joined by `.`, items by `,`; `~` = empty string -/
+def parseStr (s : String) : Option String :=
+  if s == "~" then some "" else
+  ((s.splitOn ".").mapM String.toNat?).map fun cs => String.ofList (cs.map Char.ofNat)
+
+def parseStrs (s : String) : Option (List String) :=
+  if s == "_" then some [] else (s.splitOn ",").mapM parseStr
+
+def showStr (s : String) : String :=
+  if s.isEmpty then "~" else joinWith "." (s.toList.map fun c => toString c.toNat)
+
+def showStrs (ss : List String) : String := if ss.isEmpty then "_" else joinWith "," (ss.map showStr)
+
+def parseChain (s : String) : Option Chain :=
+  match s.toList with
+  | [d, r, p] =>
+    let pk : Option (Option Nat) := match p with
+      | '0' => some none | '1' => some (some 1) | '2' => some (some 2) | _ => none
+    pk.map fun pk => ⟨d == 'd', r == 'r', pk⟩
+  | _ => none
 
 def step (_ : Unit) (line : String) : Unit × String :=
   let out : String :=
@@ -52,6 +86,52 @@ def step (_ : Unit) (line : String) : Unit × String :=
     | ["safe_cast", a, b, xs] =>
       match DType.ofString? a, DType.ofString? b, parseInts xs with
       | some a, some b, some xs => showE (safeCast a b xs)
+      | _, _, _ => "bad-op"
+    | ["fixed_enc", f, xs] =>
+      match parseRat f, parseRats xs with
+      | some f, some xs =>
+        match xs.mapM (fixedEncode f) with
+        | some ks => "ok " ++ showIntsE ks
+        | none => "unmodelled"
+      | _, _ => "bad-op"
+    | ["fixed_dec", f, ks] =>
+      match parseRat f, parseInts ks with
+      | some f, some ks => "ok " ++ (if ks.isEmpty then "_" else joinWith "," (ks.map fun k => showRat (fixedDecode f k)))
+      | _, _ => "bad-op"
+    | ["interval_enc", mn, mx, n, xs] =>
+      match parseRat mn, parseRat mx, n.toNat?, parseRats xs with
+      | some mn, some mx, some n, some xs => "ok " ++ showIntsE (xs.map (intervalEncode mn mx n))
+      | _, _, _, _ => "bad-op"
+    | ["string_enc", ss] =>
+      match parseStrs ss with
+      | some ss => let (tbl, idx) := stringEncode ss
+                   s!"ok {showStrs tbl} {showNatsE idx} {showNatsE (stringOffsets tbl 0)}"
+      | none => "bad-op"
+    | ["string_dec", tbl, idx] =>
+      match parseStrs tbl, parseNats idx with
+      | some tbl, some idx =>
+        match stringDecode tbl idx with
+        | .ok ss => "ok " ++ showStrs ss
+        | .error e => "ERR:" ++ e.toString
+      | _, _ => "bad-op"
+    | ["bytes_enc", t, xs] =>
+      match DType.ofString? t, parseInts xs with
+      | some t, some xs => "ok " ++ showNatsE (bytesEncode t xs)
+      | _, _ => "bad-op"
+    | ["bytes_dec", t, bs] =>
+      match DType.ofString? t, parseNats bs with
+      | some t, some bs => showE (bytesDecode t bs)
+      | _, _ => "bad-op"
+    | ["chain", c, t, xs] =>
+      match parseChain c, DType.ofString? t, parseInts xs with
+      | some c, some t, some xs =>
+        match chainEncode c t xs with
+        | some e =>
+          let dec := match chainDecode c e with
+            | some ys => showIntsE ys
+            | none => "FAIL"
+          s!"ok {showIntsE e.stream} -> {dec}"
+        | none => "rejected"
       | _, _, _ => "bad-op"
     | _ => "bad-op"
   ((), out)
